@@ -207,6 +207,35 @@ func vc11Twins() map[string]string {
 	return vc11TwinLabel
 }
 
+// Magic names: a name under "com" whose digest starts with the bytes 00 00 and
+// one whose digest starts with ff ff.  A zero-valued (never filled in) or an
+// all-ones prefix in the code under test selects exactly these.
+var (
+	vc11MagicOnce sync.Once
+	vc11ZeroName  string
+	vc11OnesName  string
+)
+
+func vc11Magic() (zero, ones string) {
+	vc11MagicOnce.Do(func() {
+		for i := 0; vc11ZeroName == "" || vc11OnesName == ""; i++ {
+			name := fmt.Sprintf("z%d.com", i)
+			switch vc11Sum(name)[:4] {
+			case "0000":
+				if vc11ZeroName == "" {
+					vc11ZeroName = name
+				}
+			case "ffff":
+				if vc11OnesName == "" {
+					vc11OnesName = name
+				}
+			}
+		}
+	})
+
+	return vc11ZeroName, vc11OnesName
+}
+
 // vc11SelfCheck compares the harness-owned table with the table the
 // repository is built with.  It returns a description of the first
 // disagreement, or "".
@@ -323,7 +352,7 @@ type vc11List struct {
 // listed twice, only present in a comment, or listed and also present in a
 // comment; blank lines are inserted; lines end in LF or CRLF and the last
 // line may lack its terminator.
-func vc11GenList(t *rapid.T, label string, names []string) (l vc11List) {
+func vc11GenList(t *rapid.T, label string, names []string, favoured ...string) (l vc11List) {
 	l.listed = map[string]bool{}
 	forms := map[string]bool{}
 
@@ -332,7 +361,15 @@ func vc11GenList(t *rapid.T, label string, names []string) (l vc11List) {
 
 	var lines []string
 	for _, name := range names {
-		if rapid.IntRange(0, 9).Draw(t, label+".in") >= density {
+		d := density
+		for _, f := range favoured {
+			if f == name {
+				// Favoured names are listed at least half of the time.
+				d = max(d, 5)
+			}
+		}
+
+		if rapid.IntRange(0, 9).Draw(t, label+".in") >= d {
 			if rapid.IntRange(0, 9).Draw(t, label+".cmt") == 0 {
 				lines = append(lines, "#"+name)
 				forms["comment-only"] = true
